@@ -1406,8 +1406,11 @@ val rw_tpl1 : char list -> expr -> char list -> nat -> expr * nat
 val rw_tpl2 :
   char list -> expr -> char list -> expr -> char list -> nat -> expr * nat
 
+val rw_bare : char list -> expr -> nat -> expr * nat
+
 val rw :
-  (char list -> bool) -> (char list -> bool) -> expr -> nat -> expr * nat
+  (char list -> bool) -> (char list -> bool) -> (char list -> bool) -> expr
+  -> nat -> expr * nat
 
 val temp_index_from : char list -> char list -> nat -> nat -> nat option
 
@@ -1435,4 +1438,4 @@ type tie_result =
 
 val sem_tie :
   char list -> char list -> (char list -> bool) -> (char list -> bool) ->
-  node -> node -> tie_result
+  (char list -> bool) -> node -> node -> tie_result
